@@ -1,4 +1,4 @@
-(** Executable entry point of the C01 model (spherical-harmonic transforms of
+(** Executable entry point of the C09 model (spherical-harmonic transforms of
     both layouts, run at exact rationals) and its extraction.
     ExtrOcamlBasic only: Z, positive, Q, nat stay inductive.
     The dispatcher is shared verbatim between ExC01.v and ExC09.v. *)
@@ -8,8 +8,8 @@ Require Import ExtrOcamlBasic.
 
 Definition qofn (n : nat) : Q := inject_Z (Z.of_nat n).
 
-(** argument conventions: see tools/props/C01.py.  All arrays flat row-major. *)
-Definition run_C01 (cmd : Z) (ints : list Z) (arrs : list (list Q)) : option (list Q) :=
+(** argument conventions: see tools/props/C09.py.  All arrays flat row-major. *)
+Definition run_C09 (cmd : Z) (ints : list Z) (arrs : list (list Q)) : option (list Q) :=
   match cmd with
   | 0%Z => (* modal layout of RealSphericalHarmonics: rows, m axis, l axis, mask *)
       let M := intn ints 0 in let L := intn ints 1 in
@@ -92,6 +92,6 @@ Definition run_C01 (cmd : Z) (ints : list Z) (arrs : list (list Q)) : option (li
   end.
 
 Definition run (prop cmd : Z) (ints : list Z) (arrs : list (list Q)) : option (list Q) :=
-  run_C01 cmd ints arrs.
+  run_C09 cmd ints arrs.
 
-Extraction "Extract/ml/C01/dispatch.ml" run.
+Extraction "Extract/ml/C09/dispatch.ml" run.
